@@ -1,6 +1,7 @@
 package main
 
 import (
+	"go/constant"
 	"go/token"
 	"go/types"
 	"sort"
@@ -806,6 +807,55 @@ func ruleMergePaths(c *Ctx, r *Rep) {
 			return
 		}
 		w.loops[h] = lp
+	}
+	// a candidate that an index list says was dealt with already is passed over and the next one is looked at: the
+	// test of a search flag (a boolean joined from constants) inside a loop over the certificate's extensions does
+	// not lead out of that loop
+	{
+		nSkip := 0
+		for _, lp := range w.loops {
+			if lp.kind != "cert" {
+				continue
+			}
+			var done *ssa.BasicBlock
+			for _, sc := range lp.head.Succs {
+				if !lp.body[sc] {
+					done = sc
+				}
+			}
+			for b := range lp.body {
+				iff, ok := lastInstr(b).(*ssa.If)
+				if !ok {
+					continue
+				}
+				cond := iff.Cond
+				if u, isNot := cond.(*ssa.UnOp); isNot && u.Op == token.NOT {
+					cond = u.X
+				}
+				phi, ok := cond.(*ssa.Phi)
+				if !ok {
+					continue
+				}
+				allConst := len(phi.Edges) >= 2
+				for _, e := range phi.Edges {
+					if k, isK := e.(*ssa.Const); !isK || k.Value == nil || k.Value.Kind() != constant.Bool {
+						allConst = false
+					}
+				}
+				if !allConst {
+					continue
+				}
+				nSkip++
+				leaves := false
+				for _, sc := range b.Succs {
+					if sc == done {
+						leaves = true
+					}
+				}
+				r.Check(!leaves, sprintf("skip-goes-on|%s|b%d", fk, b.Index), c.Pos(iff.Cond.Pos()), "a candidate found in an index list is passed over: the loop over the candidates goes on", sprintf("leaves the loop: %v", leaves))
+			}
+		}
+		_ = nSkip
 	}
 	// the two top-level loops
 	var profLoop, closing *mpLoop
